@@ -82,7 +82,10 @@ func (esp *EntityStreamParser) ParseTransaction(reader io.Reader) (*Transaction,
 	}
 
 	for {
-		t, _ = decoder.Token()
+		t, err = decoder.Token()
+		if err != nil {
+			return nil, errors.New("parsing error: Unable to read next token " + err.Error())
+		}
 		delimVal, isDelim := t.(json.Delim)
 		if isDelim {
 			if delimVal.String() == "}" {
@@ -91,7 +94,10 @@ func (esp *EntityStreamParser) ParseTransaction(reader io.Reader) (*Transaction,
 				return nil, errors.New("parsing error: Unexpected delimiter: " + delimVal.String())
 			}
 		} else {
-			datasetName := t.(string)
+			datasetName, isString := t.(string)
+			if !isString {
+				return nil, errors.New("parsing error: Expected a dataset name")
+			}
 
 			// read [
 			t, err = decoder.Token()
@@ -99,8 +105,9 @@ func (esp *EntityStreamParser) ParseTransaction(reader io.Reader) (*Transaction,
 				return nil, errors.New("parsing error: Unable to read next token " + err.Error())
 			}
 			delimVal, isDelim := t.(json.Delim)
-			if !isDelim && delimVal.String() != "[" {
-				return nil, errors.New("parsing error: Unexpected delimiter - expected [ but got : " + delimVal.String())
+			if !isDelim || delimVal.String() != "[" {
+				// anything else would be skipped token by token, up to the end of the next dataset's array
+				return nil, errors.New("parsing error: Expected [ after dataset name " + datasetName)
 			}
 			done := false
 			entities := make([]*Entity, 0)
@@ -120,6 +127,8 @@ func (esp *EntityStreamParser) ParseTransaction(reader io.Reader) (*Transaction,
 				} else if isDelim && delimVal.String() == "]" {
 					done = true
 					break
+				} else {
+					return nil, errors.New("parsing error: Expected an entity object in the array of dataset " + datasetName)
 				}
 			}
 
@@ -299,15 +308,36 @@ func (esp *EntityStreamParser) parseEntity(decoder *json.Decoder) (*Entity, erro
 				e.Properties = make(map[string]interface{})
 				e.Properties["token"] = val
 			default:
-				// log named property
-				// read value
-				_, err := decoder.Token()
+				// a member the format does not define: skip its whole value. Reading a single token left
+				// the members of an object or array value to be taken for members of this entity
+				err := skipValue(decoder)
 				if err != nil {
 					return nil, errors.New("unable to parse value of unknown key: " + v + err.Error())
 				}
 			}
 		default:
 			return nil, errors.New("unexpected value in entity")
+		}
+	}
+}
+
+// skipValue reads one complete JSON value, whatever its type
+func skipValue(decoder *json.Decoder) error {
+	depth := 0
+	for {
+		t, err := decoder.Token()
+		if err != nil {
+			return err
+		}
+		if d, isDelim := t.(json.Delim); isDelim {
+			if d == '{' || d == '[' {
+				depth++
+			} else {
+				depth--
+			}
+		}
+		if depth <= 0 {
+			return nil
 		}
 	}
 }
